@@ -32,8 +32,8 @@ Proof.
   split; [|split; [|unfold add_wakes; vsimpl; reflexivity]].
   - apply (devs_plain ib err [EvRxFlag OMarkClosed; EvTxFlag ToMarkClosed]).
     + cbn [drun]. unfold dview_of, add_wakes; vsimpl.
-      cbn [dapply x_rx x_tx is_flag_rx_op is_flag_tx_op rx_step tx_step]. rewrite Er.
-      unfold set_xrx. cbn [dapply x_rx x_tx x_segs x_lc x_out x_pend is_flag_tx_op tx_step]. rewrite Et. reflexivity.
+      cbn [dapply x_rx x_tx is_flag_rx_op pend_safe_op rx_step tx_step]. rewrite Er.
+      unfold set_xrx. cbn [dapply x_rx x_tx x_segs x_lc x_out x_pend pend_safe_op tx_step]. rewrite Et. reflexivity.
     + repeat constructor.
     + unfold add_wakes; vsimpl. reflexivity.
     + unfold rfin, add_wakes; vsimpl. auto.
